@@ -20,7 +20,7 @@ BASE_DEFS = ['-D_GNU_SOURCE', '-DZSTD_MULTITHREAD', '-DZSTD_VERIF_SIM', '-DZSTD_
 FLAVOURS = {
     # name: (zstd cflags, harness cflags, infra cflags (sched/alloc/core: never tsan), ldflags)
     'P': dict(z=['-O2', '-g'], h=['-O1', '-g'], i=['-O1', '-g'], ld=[]),
-    'A': dict(z=['-O1', '-g', '-fno-omit-frame-pointer', '-fsanitize=address,undefined', '-fno-sanitize-recover=all'],
+    'A': dict(z=['-O1', '-g', '-fno-omit-frame-pointer', '-fsanitize=address,undefined', '-fno-sanitize-recover=all', '-fsanitize-recover=pointer-overflow'],
               h=['-O1', '-g', '-fno-omit-frame-pointer', '-fsanitize=address,undefined', '-fno-sanitize-recover=all'],
               i=['-O1', '-g', '-fno-omit-frame-pointer'], ld=['-fsanitize=address,undefined']),
     'T': dict(z=['-O1', '-g', '-fno-omit-frame-pointer', '-fsanitize=thread'], h=['-O1', '-g'], i=['-O1', '-g'], ld=['-fsanitize=thread']),
@@ -139,7 +139,7 @@ def build(flavour):
             for s in harn: jobs.append((s, os.path.join(hdir, 'h_' + os.path.basename(s) + '.o'), hflags))
             errs = _compile_many(jobs)
             if errs: raise BuildError('\n'.join(errs))
-            r = sh([CC] + fl['ld'] + ['-o', binp + '.tmp'] + [j[1] for j in jobs] + [zlib, '-lpthread', '-lm'])
+            r = sh([CC] + fl['ld'] + ['-o', binp + '.tmp'] + [j[1] for j in jobs] + [zlib, '-lpthread', '-lm', '-rdynamic', '-Wl,--wrap=malloc,--wrap=calloc,--wrap=realloc,--wrap=free'])
             if r.returncode != 0: raise BuildError(r.stdout[-4000:])
             os.rename(binp + '.tmp', binp)
             _evict('h-%s-' % flavour, os.path.basename(hdir))
@@ -170,19 +170,45 @@ class BatchResult:
         for k, v in o.kf.items(): self.kf.setdefault(k, []).extend(v)
         self.sched_sigs |= o.sched_sigs; self.wall += o.wall; self.truncated |= o.truncated; self.benign_restarts += o.benign_restarts
 
+BENIGN_UB = 'applying zero offset to null pointer'   # NULL+0: harmless, defined in C++/C2y; counted, not reported
 SAN_RE = re.compile(r'(AddressSanitizer|ThreadSanitizer|UndefinedBehaviorSanitizer|MemorySanitizer|LeakSanitizer):? ?([a-zA-Z\- ]+)')
 
+def ubsan_class(text):
+    """class of the first non-benign UBSan report in text, or None"""
+    for line in text.splitlines():
+        if 'runtime error:' in line and BENIGN_UB not in line:
+            words = re.sub(r'[^a-z ]', ' ', line.split('runtime error:')[1].lower()).split()
+            return 'crash:ubsan:' + '-'.join(words[:5])
+    return None
+
 def classify_crash(rc, errtext):
+    u = ubsan_class(errtext)
+    if u: return u
     m = SAN_RE.search(errtext)
     if m:
         kind = m.group(2).strip().split(' on ')[0].split(' in ')[0].strip().replace(' ', '-')[:40]
         return 'crash:%s:%s' % (m.group(1), kind)
-    if 'runtime error:' in errtext:
-        m2 = re.search(r'runtime error: ([a-z \-]+)', errtext)
-        return 'crash:ubsan:%s' % (m2.group(1).strip().replace(' ', '-')[:40] if m2 else 'ub')
     if rc == 68: return 'hang:cpu_cap'
-    if rc < 0: return 'crash:signal:%d' % (-rc)
+    if rc == -99: return 'hang:wall_clock_stall'
+    if rc < 0:
+        # innermost zstd/library frame of the backtrace printed by the crash handler identifies the site
+        m3 = re.findall(r'simzstd\(([A-Za-z_0-9]+)\+0x', errtext)
+        site = next((x for x in m3 if not x.startswith(('on_crash', 'sim_', 'main'))), '')
+        return 'crash:signal:%d%s' % (-rc, (':' + site) if site else '')
     return 'crash:exit:%d' % rc
+
+def scan_recoverable_ubsan(errt, res):
+    """pointer-overflow reports are recoverable in flavour A: attribute each to its run (stderr '@run i' markers)."""
+    out = []; cur = -1
+    if 'runtime error:' not in errt: return out
+    for line in errt.splitlines():
+        if line.startswith('@run '):
+            try: cur = int(line.split()[1])
+            except ValueError: pass
+        elif 'runtime error:' in line:
+            if BENIGN_UB in line: res.probes['ubsan.null_plus_zero_ignored'] = res.probes.get('ubsan.null_plus_zero_ignored', 0) + 1; continue
+            out.append((cur, line))
+    return out
 
 def parse_worker_output(text, res, pending):
     """parse stdout of a worker; pending: dict last BEGIN"""
@@ -220,7 +246,7 @@ def parse_worker_output(text, res, pending):
             for x in line.split()[1:]:
                 k, v = x.rsplit('=', 1); res.faults[k] = res.faults.get(k, 0) + int(v)
 
-def run_batch(flavour, scenario, root, runs, tier, workers=None, time_cap=None, cpu_cap=120, env_extra=None):
+def run_batch(flavour, scenario, root, runs, tier, workers=None, time_cap=None, cpu_cap=120, env_extra=None, stall_cap=400):
     """Fan `runs` runs of `scenario` out to long-lived worker processes; restart a worker that dies."""
     binp = build(flavour)
     if workers is None: workers = NCPU if flavour in ('P', 'F', 'N', 'D') else max(4, NCPU // 2)
@@ -234,7 +260,7 @@ def run_batch(flavour, scenario, root, runs, tier, workers=None, time_cap=None, 
         w.out = os.path.join(tmpd, 'w%d-%d.out' % (w.k, w.gen)); w.err = os.path.join(tmpd, 'w%d-%d.err' % (w.k, w.gen)); w.gen += 1
         cmd = [binp, scenario, '--root', str(root), '--start', str(w.next), '--count', str(w.remaining), '--stride', str(workers), '--tier', tier, '--cpu-cap', str(cpu_cap)]
         w.fo = open(w.out, 'w'); w.fe = open(w.err, 'w')
-        w.p = subprocess.Popen(cmd, stdout=w.fo, stderr=w.fe, env=env, cwd=tmpd)
+        w.p = subprocess.Popen(cmd, stdout=w.fo, stderr=w.fe, env=env, cwd=tmpd); w.last_change = time.time(); w.last_sz = -1
     for k in range(workers):
         w = W(); w.k = k; w.gen = 0; w.next = k; w.remaining = (runs - k + workers - 1) // workers
         if w.remaining <= 0: continue
@@ -245,7 +271,13 @@ def run_batch(flavour, scenario, root, runs, tier, workers=None, time_cap=None, 
         for w in list(active):
             rc = w.p.poll()
             if rc is None:
-                if time_cap and time.time() - t0 > time_cap:
+                try:
+                    sz = os.path.getsize(w.out)
+                    if sz != getattr(w, 'last_sz', -1): w.last_sz = sz; w.last_change = time.time()
+                except OSError: pass
+                if time.time() - getattr(w, 'last_change', time.time()) > stall_cap:
+                    w.p.kill(); w.p.wait(); rc = -99      # no output for stall_cap seconds: wall-clock hang
+                elif time_cap and time.time() - t0 > time_cap:
                     w.p.kill(); w.p.wait(); res.truncated = True
                     rc = 'killed'
                 else:
@@ -256,6 +288,8 @@ def run_batch(flavour, scenario, root, runs, tier, workers=None, time_cap=None, 
             before = res.evaluations
             parse_worker_output(text, res, pending)
             done_here = res.evaluations - before
+            for (ridx, rmsg) in scan_recoverable_ubsan(errt, res):
+                res.failures.append(Failure(ridx, ubsan_class(rmsg), rmsg[:600], flavour, scenario, root, tier))
             if rc == 'killed' or rc == 0:
                 active.remove(w); continue
             # worker died: identify the run
@@ -303,6 +337,8 @@ def run_plan(flavour, plan_lines, cpu_cap=120, want_trace=False):
         d = dict(rc=rc, status='OK', cls=None, msg='', hash=None, trace=pending.get('trace'), kf=list(res.kf.keys()))
         if 'viol' in pending:
             idx, cls, msg, h = pending['viol']; d.update(status='VIOL', cls=cls, msg=msg, hash=h)
+        elif (rc == 0 or rc == 64) and ubsan_class(err):
+            d.update(status='VIOL', cls=ubsan_class(err), msg=err[-1500:].replace('\n', ' | '), hash='ubsan')
         elif rc == 0 or rc == 64:
             d['hash'] = list(res.hashes.values())[0] if res.hashes else None
         else:
@@ -421,8 +457,8 @@ def match_known(prop, cls, msg, scenario=None):
 
 def gate_violation(prop, f, do_shrink=True):
     """Returns ('violation', replay_path) | ('known', kf) | ('infra', reason)."""
-    lines = gen_plan(f.flavour, f.scenario, f.root, f.idx, f.tier)
-    if not lines: return ('infra', 'cannot regenerate plan for run %s' % f.idx)
+    lines = gen_plan(f.flavour, f.scenario, f.root, f.idx, f.tier) if f.idx is not None and f.idx >= 0 else []
+    if not [l for l in lines if l.startswith('seed')]: return ('infra', 'cannot regenerate plan for run %s' % f.idx)
     a = run_plan(f.flavour, lines, want_trace=True); b = run_plan(f.flavour, lines)
     if a['status'] != 'VIOL' or b['status'] != 'VIOL' or a['cls'] != b['cls'] or a['hash'] != b['hash']:
         return ('infra', 'violation %s of run %s did not reproduce identically in fresh processes (%s/%s, %s/%s)' % (f.cls, f.idx, a['cls'], b['cls'], a['hash'], b['hash']))
